@@ -933,7 +933,10 @@ Inductive sop :=
 | STopAppend (a : atom)                         (* schema.aliases.append(a) *)
 | SListAppend (o : nat)                         (* schema.columns.append(obj_o) *)
 | SListPop                                      (* schema.columns.pop() *)
-| SScribble                                     (* the caller appends to the lists inside the dictionary returned last *)
+| SScribble                                     (* the caller edits objects it owns: the lists inside the dictionary returned last,
+                                                   the attributes and lists of a schema restored earlier *)
+| SSave                                         (* saved = schema.to_dict(): the caller keeps the dictionary *)
+| SRestoreSaved (orest : result oschema)        (* RelationSchema.from_dict(saved), later: observed *)
 | SRound (od : result odict) (orest : result oschema)     (* schema.to_dict(), RelationSchema.from_dict(schema.to_dict()): observed *)
 | SJson (o : nat) (oj : result jval) (back : robs).       (* obj_o.to_json(), FlatColumn.from_json(obj_o.to_json()): observed *)
 
@@ -955,7 +958,7 @@ Definition step (st : sstate) (op : sop) : option sstate :=
       end
   | SListAppend o => Some (h, refs ++ [o], top)
   | SListPop => Some (h, removelast refs, top)
-  | SScribble | SRound _ _ | SJson _ _ _ => Some st
+  | SScribble | SRound _ _ | SJson _ _ _ | SSave | SRestoreSaved _ => Some st
   end.
 Fixpoint exec (st : sstate) (ops : list sop) : option sstate :=
   match ops with
@@ -979,12 +982,24 @@ Definition obs_ok (P : str -> params -> pv -> result pv) (sers : list ser_table)
       result_eqb column_eqb (bind (to_json S c) (from_json P [])) (resolve (Ok (nth o built dummy_column)) back)
   | _ => true
   end.
+(* [saved]: the dictionary the caller kept at the last SSave (a VALUE: what the schema was then), with the objects
+   its columns were listed from; restoring it later must give the schema as saved, whatever was done since *)
 Fixpoint ssess_run (P : str -> params -> pv -> result pv) (sers : list ser_table) (built : list column)
-                   (st : sstate) (ops : list sop) : bool :=
+                   (saved : option (sdict * list column)) (st : sstate) (ops : list sop) : bool :=
   match ops with
   | [] => true
   | op :: r => obs_ok P sers built st op &&
-               match step st op with Some st' => ssess_run P sers built st' r | None => false end
+               (match op, saved with
+                | SRestoreSaved orest, Some (d, bases) =>
+                    result_eqb schema_eqb (from_dict P (fun _ => []) d) (bind orest (resolve_schema bases))
+                | SRestoreSaved _, None => false
+                | _, _ => true
+                end) &&
+               let saved' := match op with
+                             | SSave => Some (to_dict (view st), map (fun i => nth i built dummy_column) (snd (fst st)))
+                             | _ => saved
+                             end in
+               match step st op with Some st' => ssess_run P sers built saved' st' r | None => false end
   end.
 
 (* a schema session: the single-shot case (whose observations were made first, on the same objects), the columns list
@@ -997,7 +1012,7 @@ Definition c16_ssess_check (k : c16_ssess_case) : bool :=
   let '(n, al, pk, rcm, rce, dsm, dse) := top in
   match all_some (map built_ok cols) with
   | None => true
-  | Some cs => ssess_run (parse_of pt) (map (fun x => o_ser (snd x)) cols) cs
+  | Some cs => ssess_run (parse_of pt) (map (fun x => o_ser (snd x)) cols) cs None
                          (cs, refs, mkschema n al [] pk rcm rce dsm dse) ops
   end.
 Definition c16_ssess_show (k : c16_ssess_case) :=
